@@ -1126,7 +1126,7 @@ func (p *CPU) execInst(bus *device.Bus, as abi.As, arg *abi.AsRawArgument) error
 			return fmt.Errorf("unsupport: %s", loong64.AsString(as, ""))
 
 		case loong64.ABEQ:
-			if p.RegX[arg.Rs1] == p.RegX[arg.Rs2] {
+			if p.RegX[arg.Rs1] == p.RegX[arg.Rd] {
 				p.PC = curPC + LAUInt(arg.Imm)
 			}
 			return nil
@@ -1135,14 +1135,14 @@ func (p *CPU) execInst(bus *device.Bus, as abi.As, arg *abi.AsRawArgument) error
 		case loong64.ABGEU:
 			panic("TODO")
 		case loong64.ABLT:
-			if int64(p.RegX[arg.Rs1]) < int64(p.RegX[arg.Rs2]) {
+			if int64(p.RegX[arg.Rs1]) < int64(p.RegX[arg.Rd]) {
 				p.PC = curPC + LAUInt(arg.Imm)
 			}
 			return nil
 		case loong64.ABLTU:
 			panic("TODO")
 		case loong64.ABNE:
-			if p.RegX[arg.Rs1] != p.RegX[arg.Rs2] {
+			if p.RegX[arg.Rs1] != p.RegX[arg.Rd] {
 				p.PC = curPC + LAUInt(arg.Imm)
 			}
 			return nil
